@@ -303,10 +303,10 @@ func (s *Session) Mail(from string, opts *smtp.MailOptions) error {
 			}
 			return s.endp.wrapErr(msgID, !opts.UTF8, "MAIL", err)
 		}
+	} else {
+		// Keep the MAIL FROM argument for deferred startDelivery.
+		s.mailFrom = from
 	}
-
-	// Keep the MAIL FROM argument for deferred startDelivery.
-	s.mailFrom = from
 	s.opts = *opts
 
 	return nil
